@@ -12,18 +12,18 @@ import (
 )
 
 const (
-	SInt  = "Int"
-	SBool = "Bool"
-	SArrB = "(Array Int Int)"       // byte / int arrays
-	SStr  = "tq_Str"                // datatype (arr, off, len)
-	SArrS = "(Array Int tq_Str)"    // arrays of strings (Args)
-	SSeq  = "tq_Seq"                // abstract byte sequences (hash inputs)
-	SRef  = "tq_Ref"                // opaque values
-	SArrR = "(Array Int tq_Ref)"    // arrays of opaque values
-	SSet  = "(Array Int Bool)"      // sets of Int keys
-	SSetR = "(Array tq_Ref Bool)"   // sets of opaque keys
-	SMapR = "(Array tq_Ref tq_Ref)" // abstract maps
-	SMapRI = "(Array tq_Ref Int)"   // ghost counters per object (gauges)
+	SInt   = "Int"
+	SBool  = "Bool"
+	SArrB  = "(Array Int Int)"       // byte / int arrays
+	SStr   = "tq_Str"                // datatype (arr, off, len)
+	SArrS  = "(Array Int tq_Str)"    // arrays of strings (Args)
+	SSeq   = "tq_Seq"                // abstract byte sequences (hash inputs)
+	SRef   = "tq_Ref"                // opaque values
+	SArrR  = "(Array Int tq_Ref)"    // arrays of opaque values
+	SSet   = "(Array Int Bool)"      // sets of Int keys
+	SSetR  = "(Array tq_Ref Bool)"   // sets of opaque keys
+	SMapR  = "(Array tq_Ref tq_Ref)" // abstract maps
+	SMapRI = "(Array tq_Ref Int)"    // ghost counters per object (gauges)
 )
 
 type Term struct {
@@ -35,8 +35,8 @@ type Term struct {
 	Bound []*Term
 	Pats  [][]*Term
 	// known facts for bit tricks (may be nil/0 = unknown)
-	Hi *big.Int // inclusive upper bound, term known >= 0 when Hi != nil
-	Tz int      // known to be a multiple of 2^Tz
+	Hi  *big.Int // inclusive upper bound, term known >= 0 when Hi != nil
+	Tz  int      // known to be a multiple of 2^Tz
 	str string
 	id  int
 	fbv []string // free bound variables (quantifier-bound names occurring free)
@@ -165,11 +165,11 @@ func Bool(b bool) *Term {
 	return TFalse
 }
 func Var(name, srt string) *Term { return intern(&Term{Op: "var:" + name, Sort: srt}) }
-func (t *Term) IsVar() bool     { return strings.HasPrefix(t.Op, "var:") }
-func (t *Term) VarName() string { return t.Op[4:] }
-func (t *Term) IsNum() bool     { return t.Num != nil }
-func (t *Term) IsTrue() bool    { return t == TTrue || t.Op == "true" }
-func (t *Term) IsFalse() bool   { return t == TFalse || t.Op == "false" }
+func (t *Term) IsVar() bool      { return strings.HasPrefix(t.Op, "var:") }
+func (t *Term) VarName() string  { return t.Op[4:] }
+func (t *Term) IsNum() bool      { return t.Num != nil }
+func (t *Term) IsTrue() bool     { return t == TTrue || t.Op == "true" }
+func (t *Term) IsFalse() bool    { return t == TFalse || t.Op == "false" }
 func (t *Term) Int64() (int64, bool) {
 	if t.Num != nil && t.Num.IsInt64() {
 		return t.Num.Int64(), true
